@@ -32,7 +32,7 @@ def tasks(tier, params):
             out.append(('ingest.%d' % i, {'part': 'ingest', 'sc': sc}))
     if part in (None, 'reply_wire'):
         for i, sc in enumerate(reply_scenarios('quick')):
-            if sc['ops'] and sc['q']:
+            if sc['ops'] and sc['q'] and all(o[0] != 'remove' for o in sc['ops']):
                 out.append(('reply_wire.%d' % i, {'part': 'reply_wire', 'sc': sc}))
     if part in (None, 'escape'):
         for n in range(0, 4 if tier == 'quick' else 5):
